@@ -126,6 +126,14 @@ func checkFlow(p flowParams, x *verifkit.Exec) []verifkit.Violation {
 				// C02(d) / C03: at every commit everything at or before the stored position has been handled
 				if q > lastPos[s] || !lastPosSeen[s] {
 					for i := 0; i <= q; i++ {
+						if k := (recKey{s, i}); nackedInEpoch[k] && !dlqOK[k] && !filtered[k] {
+							if ok, _ := handled(k); ok {
+								// every destination confirmed SOME record derived from it, but one derived record (a piece of a split) was
+								// rejected in this run and the DLQ has not confirmed the record: it is not handled
+								a.bad("C02/position-covers-unhandled", "commit #%d stores position %d for %s although a destination rejected record %d (or a record derived from it) in this run and the DLQ has not confirmed it: a crash now loses it (event #%d)", e.Idx, q, s, i, e.Seq)
+								a.bad("C07/rejected-record-covered-by-position", "commit #%d (event #%d) stores position %d for %s: it covers record %d, of which a derived record was rejected and which has no confirmed DLQ write - the record is lost", e.Idx, e.Seq, q, s, i)
+							}
+						}
 						if ok, missing := handled(recKey{s, i}); !ok {
 							a.bad("C02/position-covers-unhandled", "commit #%d stores position %d for %s although record %d has not been confirmed by %s (nor dead-lettered/filtered): a crash now loses it (event #%d)", e.Idx, q, s, i, missing, e.Seq)
 							if k := (recKey{s, i}); nackedInEpoch[k] || dlqNacked[k] || procRejected[k] {
@@ -221,6 +229,11 @@ func checkFlow(p flowParams, x *verifkit.Exec) []verifkit.Violation {
 				if forceCalled {
 					a.bad("C12/unhandled-record-acknowledged", "after the force stop source %s was told record %d is acknowledged although %s never confirmed it (event #%d)", e.Comp, e.Idx, missing, e.Seq)
 				}
+			}
+			if nackedInEpoch[k] && !dlqOK[k] && !filtered[k] {
+				// a destination REJECTED the record (or one of the records derived from it) in this run and no DLQ write is
+				// confirmed: "every destination positively confirmed every record derived from it" does not hold
+				a.bad("C01/ack-before-destination/rejected-piece", "source %s was told record %d is acknowledged although a destination rejected it (or a record derived from it) in this run and the DLQ has not confirmed it (event #%d)", e.Comp, e.Idx, e.Seq)
 			}
 			if dlqNacked[k] && !dlqOK[k] {
 				a.bad("C07/ack-after-failed-dlq-write", "record %d of %s was acknowledged although its DLQ write was rejected (event #%d)", e.Idx, e.Comp, e.Seq)
